@@ -84,6 +84,8 @@ def rule_d(ctx):
     K.check_floors(ctx, "C05")
 
 
+WITNESS = ['c16::mailbox']  # doctest filters in /verif/witness (thorough tier)
+
 RULES = [
     ("C05.a", "one task owns the model and its receiver", rule_a),
     ("C05.b", "init then sequential receives; handler awaited to completion", rule_b),
